@@ -183,6 +183,49 @@ CLAIMED["C19"] = ("proof",
     "reflect/unsafe writes, control dependence).",
     "verified graph checker in Coq + translator regenerating the flow graph from source + dynamic witness")
 
+CLAIMED["C06"] = ("proof",
+    "Gallina model of makeAuthKey byte for byte (every fixed-width conversion, RSA block layout, salt xor, new_nonce_hash1) and of a conformant server written from the MTProto "
+    "key-exchange specification; C06_agreement: for ALL client draws and ALL conformant server parameters the run ends Success, both sides hold the same 256-byte key, key id and "
+    "salt, the server accepts every client frame, exactly one session save happens and any first encrypted request opens on the server (link to C03). RSA/DH through a modexp "
+    "Section variable with the Z.pow laws; SHA-1/AES via the C05/C03 interfaces; instance with the Gallina primitives. Tied to the code by running the real CreateConnection "
+    "against an in-process handshake server with the client's crypto/rand draws scripted, incl. the 24 forced leading-zero corners, comparing outcome, every plain frame, key, "
+    "id, salt on both sides, the session file and the first encrypted packet with the extracted model.",
+    "DESIGN.md section 8 (C06)",
+    "Trusted: Coq kernel; extraction; harness incl. hsserver. Partial: Pollard-rho SplitPQ termination is probabilistic and not proved (premise split pq <> None; whenever the loop "
+    "model returns its result is the ordered factorisation); explicit SHA-1 no-collision premise on the server's answer and its <=15 padded extensions; rsa_pair (decryption "
+    "inverts encryption) is part of the definition of a conformant server; ProbablyPrime soundness below 2^64 is a premise; 2048-bit Exp results enter as per-case oracle tables.",
+    "machine-checked proof in Coq + handshake correspondence with scripted randomness")
+
+CLAIMED["C07"] = ("proof",
+    "Same model with the server an ARBITRARY environment (history of sent frames -> next reply): Success implies every nonce echo was equal, a fingerprint matched, the decrypted "
+    "answer was SHA1(answer) ++ answer ++ (<16 bytes), the inner data echoed both nonces, new_nonce_hash1 is correct at fixed width and the reply constructors were resPQ, "
+    "server_DH_params_ok, dh_gen_ok; not Success implies every effect is a plain send (no Save, no encrypted send); makeAuthKey never panics. Tied to the code by hundreds of "
+    "single-fault scripts (every reply field x bit flip / random / other nonce / zero x alternative constructors, padding and length faults) run against the real client in child "
+    "processes under a watchdog: verdict, session store and frames compared with the extracted model.",
+    "DESIGN.md section 8 (C07)",
+    "Trusted: as C06. Outside the model (C16's area): malformed bodies of handshake constructors decoded by the generic TL decoder, rpc_error replies during the exchange.",
+    "machine-checked proof in Coq + fault-injection correspondence")
+
+CLAIMED["C11"] = ("proof",
+    "Extension of the client transition system (Client/Live.v, Salt.v): for every history with any number of bad_server_salt rotations and pending requests the salt in force is the "
+    "newest adoption and every adoption is in the session store; each frame carries the salt adopted before it was written; a request is on the wire twice only if the earlier frame "
+    "was rejected by a bad_server_salt naming exactly its id, and then under the new salt; no id is retried twice; accepted requests are never re-sent; every completed call returned "
+    "the result for its newest non-rejected id; every table entry has a live owner so each send of the receive loop is eventually enabled (no stall); new_session_created adopts and "
+    "saves. Tied to the code by trace validation of the real client (controlled scheduler + reference server, fresh and resumed sessions) through the extracted step2.",
+    "DESIGN.md section 8 (C09-C11, C16)",
+    "Trusted: as C09 plus cmd/c11 (keyex front for fresh sessions). Fairness and real time-outs assumed; pinger and read deadline outside the histories.",
+    "machine-checked invariants in Coq over all histories + trace validation of the real client")
+
+CLAIMED["C16"] = ("proof",
+    "Same extended system (Client/Live.v, Alive.v): for every server history over the alphabet (every service constructor, arbitrary API objects as updates, rpc_result for unknown "
+    "or already answered ids, unregistered ids, truncated bodies, nested/empty containers, transport error frames, orderly close between messages) the receive loop never reaches "
+    "RDead and from every reachable state a probe call has a schedule of client-only steps to completion; after a close the client reconnects with the same key: no key exchange, "
+    "no plain frame (plain_out = 3*keyex, keyex <= 1, 0 for a loaded session); step2 is conservative over the C09/C10 system. Tied to the code by histories run against the real "
+    "client in supervised child processes (death = exit status, stall = watchdog + goroutine dump), Warnings channel nil / buffered / full, handler or none, followed by a probe.",
+    "DESIGN.md section 8 (C09-C11, C16)",
+    "Trusted: as C11. Abortive closes (RST) and writes racing a close are outside the alphabet; a persistent non-EOF I/O error makes the loop warn on every read (it used to panic).",
+    "machine-checked invariants in Coq over all server histories + supervised runs of the real client")
+
 PENDING_REASON = "check not built yet in this round (machinery under construction; see DESIGN.md section 9 order of work)"
 
 
